@@ -1,7 +1,2011 @@
-//! C08 — not implemented yet.
+//! C08 — CRAM block codecs and integer codings decode exactly what was encoded, per the spec.
+//!
+//! Sub-checks: `ref_pins` (the reference decoders/codecs are pinned on golden vectors first),
+//! `rans4x8`, `rans_nx16`, `aac`, `fqzcomp`, `name_tokenizer`, `general` (gzip/bzip2/lzma), `itf8`,
+//! `ltf8`, `uint7`.
+//!
+//! Known-defect attribution. Several genuine defects of the pinned tree sit in this property. Each
+//! has (1) a predicate on the case (or on the stream noodles emitted) that describes the failing
+//! class, (2) a *canary*: a fixed tiny input that tells, once per process, whether that defect is
+//! still present in the build under test, and (3) its own signature. A failing case is attributed
+//! to the first class (in a fixed priority order) whose predicate holds and whose canary still
+//! fails; otherwise it gets the generic signature of the failing step, which is never listed in
+//! KNOWN_FINDINGS. On a tree where a defect has been repaired its canary passes, the class is no
+//! longer used for attribution, and its KNOWN_FINDINGS line can simply be dropped.
 
+use crate::engine::panics::{self, PanicInfo};
+use crate::engine::shard::Recorder;
 use crate::engine::*;
+use crate::oracle::{rans_ref, varint_ref};
+use crate::r#gen::payload::XorShift;
+use noodles_cram::codecs::{aac, rans_4x8, rans_nx16};
+use noodles_cram::verif as nv;
+use proptest::prelude::*;
+use serde::{Deserialize, Serialize};
+use std::io;
+use std::sync::OnceLock;
+
+// ================================================================================================
+// Running noodles code: result / error / panic
+
+pub enum Out<T> {
+    Ok(T),
+    Err(io::Error),
+    Panic(PanicInfo),
+}
+
+/// Run a noodles call; a panic inside the harness itself is re-raised (harness error).
+pub fn guard<T>(f: impl FnOnce() -> io::Result<T>) -> Out<T> {
+    match panics::catch(f) {
+        Ok(Ok(v)) => Out::Ok(v),
+        Ok(Err(e)) => Out::Err(e),
+        Err(p) => {
+            if p.in_harness() {
+                panic!("harness panic inside a guarded call: {}", p.describe());
+            }
+            Out::Panic(p)
+        }
+    }
+}
+
+/// A known-defect class: (predicate holds for this case, signature, canary "defect still present").
+pub type Class = (bool, &'static str, fn() -> bool);
+
+fn attribute(classes: &[Class], generic: String) -> String {
+    for (applies, sig, present) in classes {
+        if *applies && present() {
+            return (*sig).to_string();
+        }
+    }
+    generic
+}
+
+fn once(cell: &'static OnceLock<bool>, f: fn() -> bool) -> bool {
+    *cell.get_or_init(|| panics::catch(f).unwrap_or(true))
+}
+
+fn roundtrips<T: PartialEq>(r: Out<T>, expect: &T) -> bool {
+    matches!(r, Out::Ok(ref v) if v == expect)
+}
+
+// ---- canaries (true = the defect is present in this build) -------------------------------------
+
+fn rt_4x8(order: rans_4x8::Order, x: &[u8]) -> bool {
+    let x = x.to_vec();
+    roundtrips(guard(|| nv::rans_4x8_encode(order, &x).and_then(|e| nv::rans_4x8_decode(&e))), &x)
+}
+fn rt_nx16(flags: u8, x: &[u8]) -> bool {
+    let x = x.to_vec();
+    roundtrips(guard(|| nv::rans_nx16_encode(rans_nx16::Flags::from(flags), &x).and_then(|e| nv::rans_nx16_decode(&e, x.len()))), &x)
+}
+fn rt_aac(flags: u8, x: &[u8]) -> bool {
+    let x = x.to_vec();
+    roundtrips(guard(|| nv::aac_encode(aac::Flags::from(flags), &x).and_then(|e| nv::aac_decode(&e, x.len()))), &x)
+}
+fn rt_tok3(x: &[u8]) -> bool {
+    let x = x.to_vec();
+    roundtrips(guard(|| nv::name_tokenizer_encode(&x).and_then(|e| nv::name_tokenizer_decode(&e))), &x)
+}
+fn rt_fqz(lens: &[usize], x: &[u8]) -> bool {
+    let x = x.to_vec();
+    roundtrips(guard(|| nv::fqzcomp_encode(lens, &x).and_then(|e| nv::fqzcomp_decode(&e))), &x)
+}
+
+pub fn d_4x8_first1() -> bool {
+    static C: OnceLock<bool> = OnceLock::new();
+    once(&C, || !rt_4x8(rans_4x8::Order::Zero, &[1, 1, 1, 2, 3, 1, 5]))
+}
+pub fn d_4x8_run255() -> bool {
+    static C: OnceLock<bool> = OnceLock::new();
+    once(&C, || !rt_4x8(rans_4x8::Order::Zero, &[253, 254, 255, 0, 253, 254, 255, 9]))
+}
+pub fn d_4x8_empty() -> bool {
+    static C: OnceLock<bool> = OnceLock::new();
+    once(&C, || !rt_4x8(rans_4x8::Order::Zero, &[]))
+}
+pub fn d_nx16_first1() -> bool {
+    static C: OnceLock<bool> = OnceLock::new();
+    once(&C, || !rt_nx16(0, &[1, 1, 1, 2, 3, 1, 5]))
+}
+pub fn d_nx16_order1() -> bool {
+    static C: OnceLock<bool> = OnceLock::new();
+    once(&C, || {
+        let d: Vec<u8> = (0..1000u32).map(|i| ((i.wrapping_mul(2654435761) >> 28) as u8 & 7) + 2).collect();
+        !rt_nx16(0x01, &d) || !rt_nx16(0x05, &d)
+    })
+}
+pub fn d_aac_empty() -> bool {
+    static C: OnceLock<bool> = OnceLock::new();
+    once(&C, || !rt_aac(0, &[]))
+}
+pub fn d_aac_255() -> bool {
+    static C: OnceLock<bool> = OnceLock::new();
+    once(&C, || !rt_aac(0, &[1, 2, 255, 3]))
+}
+pub fn d_tok3_tokens127() -> bool {
+    static C: OnceLock<bool> = OnceLock::new();
+    once(&C, || {
+        let mut s: Vec<u8> = (0..127).map(|i| if i % 2 == 0 { b'a' } else { b'-' }).collect();
+        s.push(0);
+        !rt_tok3(&s)
+    })
+}
+pub fn d_tok3_delta0() -> bool {
+    static C: OnceLock<bool> = OnceLock::new();
+    once(&C, || !rt_tok3(b"a:5\0a:06\0"))
+}
+pub fn d_fqz_zero() -> bool {
+    static C: OnceLock<bool> = OnceLock::new();
+    once(&C, || !rt_fqz(&[3, 0, 3], &[1, 2, 3, 4, 5, 6]))
+}
+
+// ================================================================================================
+// Byte-string generator shared by the byte codecs
+
+#[derive(Clone, Debug, Serialize, Deserialize, PartialEq)]
+pub enum Data {
+    /// literal bytes (short inputs; shrink byte-wise)
+    Lit(Vec<u8>),
+    /// content class × length × seed; `k` is the class parameter (alphabet size, run scale, …)
+    Gen { class: u8, len: u32, seed: u32, k: u16 },
+}
+
+pub const DATA_CLASSES: [&str; 11] =
+    ["one-symbol", "uniform-k", "skewed-k", "runs", "text", "qualities", "all-symbols", "noise", "markov", "norm-stress", "few-symbols"];
+
+fn alphabet(seed: u64, k: usize) -> Vec<u8> {
+    let k = k.clamp(1, 256);
+    let mut syms: Vec<u8> = (0..=255u8).collect();
+    let mut r = XorShift::new(seed ^ 0x0A1F_ABE7);
+    for i in 0..k {
+        let j = i + (r.next() as usize) % (256 - i);
+        syms.swap(i, j);
+    }
+    syms.truncate(k);
+    syms
+}
+
+impl Data {
+    pub fn class_name(&self) -> &'static str {
+        match self {
+            Data::Lit(_) => "literal",
+            Data::Gen { class, .. } => DATA_CLASSES[(*class as usize) % DATA_CLASSES.len()],
+        }
+    }
+
+    pub fn expand(&self) -> Vec<u8> {
+        let (class, n, seed, k) = match self {
+            Data::Lit(v) => return v.clone(),
+            Data::Gen { class, len, seed, k } => ((*class as usize) % DATA_CLASSES.len(), *len as usize, *seed as u64, *k as usize),
+        };
+        let mut r = XorShift::new(seed + 1);
+        let mut v: Vec<u8> = Vec::with_capacity(n);
+        match class {
+            0 => v.resize(n, (seed & 0xff) as u8),
+            1 => {
+                let a = alphabet(seed, 2 + k % 255);
+                for _ in 0..n {
+                    v.push(a[(r.next() >> 11) as usize % a.len()]);
+                }
+            }
+            2 => {
+                // geometric over the alphabet, with an occasional uniformly drawn rare symbol
+                let a = alphabet(seed, 2 + k % 255);
+                for _ in 0..n {
+                    let x = r.next() >> 7;
+                    let idx = if x & 63 == 0 { (x >> 6) as usize % a.len() } else { ((x >> 6).trailing_ones() as usize).min(a.len() - 1) };
+                    v.push(a[idx]);
+                }
+            }
+            3 => {
+                let a = alphabet(seed, 1 + (seed as usize >> 3) % 9);
+                let base = 1 + k % 600;
+                while v.len() < n {
+                    let x = r.next() >> 5;
+                    let sym = a[x as usize % a.len()];
+                    let run = if (x >> 8) & 15 == 0 { base * 40 } else { 1 + (x >> 12) as usize % base };
+                    let run = run.min(n - v.len());
+                    v.resize(v.len() + run, sym);
+                }
+            }
+            4 => {
+                const WORDS: [&[u8]; 8] = [b"chr1\t", b"ACGT", b"noodles ", b"0123", b"\n", b"PASS\t", b"GT:DP ", b"NNNN"];
+                while v.len() < n {
+                    v.extend_from_slice(WORDS[(r.next() >> 9) as usize % 8]);
+                }
+                v.truncate(n);
+            }
+            5 => {
+                // quality-like: values 0..nsym decaying along reads of 50..150
+                let nsym = 1 + k % 94;
+                while v.len() < n {
+                    let rl = 50 + (r.next() >> 9) as usize % 101;
+                    let top = (r.next() >> 9) as usize % nsym;
+                    for p in 0..rl {
+                        let noise = (r.next() >> 13) as usize % 4;
+                        let q = (top * (rl - p) / rl + noise).min(nsym - 1);
+                        v.push(q as u8);
+                    }
+                }
+                v.truncate(n);
+            }
+            6 => {
+                let start = (seed & 0xff) as usize;
+                for i in 0..n {
+                    if i < 256 || i % 3 == 0 {
+                        v.push(((start + i) & 0xff) as u8);
+                    } else {
+                        v.push((r.next() >> 17) as u8);
+                    }
+                }
+            }
+            7 => {
+                while v.len() < n {
+                    v.extend_from_slice(&r.next().to_le_bytes());
+                }
+                v.truncate(n);
+            }
+            8 => {
+                let a = alphabet(seed, 2 + k % 40);
+                let next: Vec<usize> = (0..a.len()).map(|_| (r.next() >> 9) as usize % a.len()).collect();
+                let mut cur = 0usize;
+                for _ in 0..n {
+                    let x = r.next() >> 9;
+                    cur = if x & 7 == 0 { (x >> 3) as usize % a.len() } else { next[cur] };
+                    v.push(a[cur]);
+                }
+            }
+            9 => {
+                // several equally frequent symbols plus every other symbol once: stresses the
+                // "+1 for rare symbols, subtract the excess from the most frequent" normalisation
+                if n < 512 {
+                    for _ in 0..n {
+                        v.push((r.next() >> 17) as u8);
+                    }
+                } else {
+                    let order = alphabet(seed, 256);
+                    let bigs = 17 + k % 16;
+                    let tiny = 256 - bigs;
+                    let each = (n - tiny) / bigs;
+                    for s in &order[..bigs] {
+                        v.resize(v.len() + each, *s);
+                    }
+                    for s in &order[bigs..] {
+                        v.push(*s);
+                    }
+                    let last = order[0];
+                    v.resize(n, last);
+                }
+            }
+            _ => {
+                const KS: [usize; 8] = [1, 2, 3, 4, 5, 15, 16, 17];
+                let a = alphabet(seed, KS[k % 8]);
+                while v.len() < n {
+                    let x = r.next() >> 9;
+                    if x & 31 == 0 {
+                        let run = (1 + (x >> 5) as usize % 40).min(n - v.len());
+                        v.resize(v.len() + run, *a.last().unwrap());
+                    } else {
+                        v.push(a[(x >> 5) as usize % a.len()]);
+                    }
+                }
+            }
+        }
+        v
+    }
+}
+
+/// Lengths dense around 0–5 and around the 4-way / 32-way interleave remainders, plus sizes where
+/// run lengths and sizes change their uint7 length, else log-uniform up to `max`.
+fn codec_len(max: u32) -> BoxedStrategy<u32> {
+    let dense: Vec<u32> = [
+        0u32, 1, 2, 3, 4, 5, 6, 7, 8, 9, 15, 16, 17, 30, 31, 32, 33, 34, 35, 36, 63, 64, 65, 66, 67, 95, 96, 97, 127, 128, 129, 130, 131, 159, 160, 161, 255, 256, 257, 258, 259, 1023, 1024, 1025, 1026, 1027, 4095, 4096, 4097, 16383,
+        16384, 16385, 16386, 16387, 65535, 65536, 65537,
+    ]
+    .into_iter()
+    .filter(|b| *b <= max)
+    .collect();
+    let log = (0u32..=20, any::<u32>()).prop_map(move |(bits, x)| (x & ((1u32 << (bits + 1)) - 1)).min(max));
+    prop_oneof![
+        3 => 0u32..=12,
+        3 => proptest::sample::select(dense),
+        3 => 0u32..=(max.min(140)),
+        2 => 0u32..=(max.min(2100)),
+        2 => log,
+    ]
+    .boxed()
+}
+
+fn lit_byte() -> BoxedStrategy<u8> {
+    prop_oneof![
+        3 => proptest::sample::select(vec![0u8, 1, 2, 3, 65, 66, 67, 252, 253, 254, 255]),
+        1 => any::<u8>(),
+    ]
+    .boxed()
+}
+
+/// `max`: largest ordinary length; `huge`: also produce (rarely) the ≥100 KiB normalisation-stress
+/// and ≥1 MiB single-symbol-dominant inputs.
+fn data_strategy(max: u32, huge: bool) -> BoxedStrategy<Data> {
+    let lit = proptest::collection::vec(lit_byte(), 0..=40).prop_map(Data::Lit);
+    let generated = (0u8..11, codec_len(max), any::<u32>(), any::<u16>()).prop_map(|(class, len, seed, k)| Data::Gen { class, len, seed, k });
+    if huge {
+        let stress = (100_000u32..160_000, any::<u32>(), any::<u16>()).prop_map(|(len, seed, k)| Data::Gen { class: 9, len, seed, k });
+        let mega = (1_048_570u32..1_100_000, any::<u32>(), 0u8..3, any::<u16>()).prop_map(|(len, seed, c, k)| Data::Gen { class: [0u8, 2, 3][c as usize], len, seed, k });
+        prop_oneof![30 => lit, 120 => generated, 2 => stress, 1 => mega].boxed()
+    } else {
+        prop_oneof![1 => lit, 4 => generated].boxed()
+    }
+}
+
+fn distinct_symbols(x: &[u8]) -> usize {
+    let mut seen = [false; 256];
+    for b in x {
+        seen[*b as usize] = true;
+    }
+    seen.iter().filter(|s| **s).count()
+}
+
+/// The property's non-triviality rule for byte codecs.
+fn nontrivial_bytes(x: &[u8]) -> bool {
+    x.len() >= 5 && distinct_symbols(x) >= 2
+}
+
+fn len_label(n: usize) -> &'static str {
+    match n {
+        0 => "len=0",
+        1..=3 => "len=1..3",
+        4..=5 => "len=4..5",
+        6..=31 => "len=6..31",
+        32..=255 => "len=32..255",
+        256..=4095 => "len=256..4095",
+        4096..=65535 => "len=4096..65535",
+        _ => "len>=65536",
+    }
+}
+
+fn first_diff(a: &[u8], b: &[u8]) -> Option<usize> {
+    a.iter().zip(b.iter()).position(|(x, y)| x != y).or(if a.len() != b.len() { Some(a.len().min(b.len())) } else { None })
+}
+
+fn describe_mismatch(what: &str, got: &[u8], want: &[u8]) -> String {
+    let d = first_diff(got, want);
+    format!("{what}: got {} bytes, expected {} bytes, first difference at {:?}; got[..]={} expected[..]={}", got.len(), want.len(), d, trunc(&format!("{:02x?}", &got[..got.len().min(24)]), 200), trunc(&format!("{:02x?}", &want[..want.len().min(24)]), 200))
+}
+
+// ================================================================================================
+// Safety net and the frequency-normalisation classes shared by both rANS codecs
+
+/// Cap the address space of this (shard / replay) process once: a runaway allocation inside a codec
+/// (see the zero-frequency class below) must abort this process, not exhaust the machine.
+pub static NO_MEMORY_LIMIT: std::sync::atomic::AtomicBool = std::sync::atomic::AtomicBool::new(false);
+
+fn limit_memory() {
+    static DONE: OnceLock<()> = OnceLock::new();
+    DONE.get_or_init(|| {
+        // (the libFuzzer tier runs under AddressSanitizer, which needs its huge address-space
+        // reservation and has its own -rss_limit_mb / -malloc_limit_mb)
+        if NO_MEMORY_LIMIT.load(std::sync::atomic::Ordering::Relaxed) {
+            return;
+        }
+        let lim = libc::rlimit { rlim_cur: 6 << 30, rlim_max: 6 << 30 };
+        // SAFETY: plain syscall with a valid pointer.
+        unsafe {
+            libc::setrlimit(libc::RLIMIT_AS, &lim);
+        }
+    });
+}
+
+#[derive(Clone, Copy, Debug, PartialEq, Eq)]
+enum Norm {
+    Fine,
+    /// the excess taken from the most frequent symbol equals its frequency: it becomes 0 and the
+    /// encoder's renormalisation loop never ends (unbounded allocation)
+    Zero,
+    /// the excess is larger: unsigned underflow
+    Underflow,
+    /// count × scale does not fit 32 bits
+    MulOverflow,
+}
+
+/// What noodles' `normalize_frequencies` does with this histogram (same arithmetic: floor(f·scale/sum)
+/// raised to 1, the difference to `scale` added to / taken from the last symbol with the maximal
+/// count). Used only to recognise the inputs of a known defect before they are handed to the encoder.
+fn norm_outcome(hist: &[u32; 256], scale: u32) -> Norm {
+    let sum: u64 = hist.iter().map(|f| *f as u64).sum();
+    if sum == 0 {
+        return Norm::Fine;
+    }
+    let mut max = 0u32;
+    let mut max_index = 0usize;
+    for (i, f) in hist.iter().enumerate() {
+        if *f >= max {
+            max = *f;
+            max_index = i;
+        }
+    }
+    let mut nsum = 0u64;
+    let mut gmax = 0u64;
+    for (i, f) in hist.iter().enumerate() {
+        if *f == 0 {
+            continue;
+        }
+        let prod = *f as u64 * scale as u64;
+        if prod > u32::MAX as u64 || sum > u32::MAX as u64 {
+            return Norm::MulOverflow;
+        }
+        let g = (prod / sum).max(1);
+        if i == max_index {
+            gmax = g;
+        }
+        nsum += g;
+    }
+    if nsum > scale as u64 {
+        let excess = nsum - scale as u64;
+        if excess == gmax {
+            return Norm::Zero;
+        }
+        if excess > gmax {
+            return Norm::Underflow;
+        }
+    }
+    Norm::Fine
+}
+
+fn hist_of(x: &[u8]) -> [u32; 256] {
+    let mut h = [0u32; 256];
+    for b in x {
+        h[*b as usize] += 1;
+    }
+    h
+}
+
+/// Worst normalisation outcome over the tables the encoders build for `x`: the order-0 histogram,
+/// or (order 1) the successor counts of every context, counted the way both encoders do (all
+/// adjacent pairs plus the first byte of each of the `n` chunks under context 0).
+fn worst_norm(x: &[u8], order1: bool, n: usize, scale: u32) -> Norm {
+    let mut worst = Norm::Fine;
+    let mut note = |o: Norm| {
+        if o == Norm::Zero || (o != Norm::Fine && worst == Norm::Fine) {
+            worst = o;
+        }
+    };
+    if !order1 {
+        note(norm_outcome(&hist_of(x), scale));
+    } else if x.len() >= 2048 {
+        let mut t = vec![[0u32; 256]; 256];
+        let q = x.len() / n;
+        if q > 0 {
+            for j in 0..n {
+                t[0][x[j * q] as usize] += 1;
+            }
+        }
+        for w in x.windows(2) {
+            t[w[0] as usize][w[1] as usize] += 1;
+        }
+        for row in &t {
+            note(norm_outcome(row, scale));
+        }
+    }
+    worst
+}
+
+/// Canary of the normalisation defect (safe to run: with overflow checks the neighbouring
+/// "underflow" input panics at once): 20 frequent symbols and 233 symbols seen once.
+fn norm_canary_input() -> Vec<u8> {
+    let mut d = Vec::new();
+    for s in 0..20u8 {
+        d.resize(d.len() + 5000, s * 2);
+    }
+    for s in 0..=252u8 {
+        if s >= 40 || s % 2 == 1 {
+            d.push(s);
+        }
+    }
+    d
+}
+pub fn d_4x8_norm() -> bool {
+    static C: OnceLock<bool> = OnceLock::new();
+    once(&C, || {
+        // symbol 1 would also trip the symbol-list defect: move it
+        let d: Vec<u8> = norm_canary_input().into_iter().map(|b| if b == 1 { 2 } else { b }).collect();
+        !rt_4x8(rans_4x8::Order::Zero, &d)
+    })
+}
+pub fn d_nx16_norm() -> bool {
+    static C: OnceLock<bool> = OnceLock::new();
+    once(&C, || !rt_nx16(0, &norm_canary_input()))
+}
+
+// ================================================================================================
+// rANS 4x8
+
+#[derive(Clone, Debug, Serialize, Deserialize)]
+pub struct R4x8Case {
+    pub data: Data,
+    /// 0 or 1
+    pub order: u8,
+    /// remove the symbols that lead into the known symbol-list defects (1 → 2, 254 → 250)
+    pub safe: bool,
+}
+
+impl R4x8Case {
+    pub fn bytes(&self) -> Vec<u8> {
+        let mut v = self.data.expand();
+        if self.safe {
+            for b in v.iter_mut() {
+                if *b == 1 {
+                    *b = 2;
+                } else if *b == 254 {
+                    *b = 250;
+                }
+            }
+        }
+        v
+    }
+}
+
+fn r4x8_strategy(tier: Tier) -> BoxedStrategy<R4x8Case> {
+    let max = tier.pick(24_000, 300_000);
+    (data_strategy(max, true), 0u8..2, prop_oneof![3 => Just(true), 1 => Just(false)]).prop_map(|(data, order, safe)| R4x8Case { data, order, safe }).boxed()
+}
+
+/// Symbol sets of every frequency table the 4x8 encoder serialises for `x`: the order-0 table, or
+/// (order 1) the list of contexts and the successor set of each context, counted the way the
+/// encoder does (all adjacent pairs, plus the first byte of each quarter under context 0).
+fn tables_4x8(x: &[u8], order1: bool) -> Vec<[bool; 256]> {
+    if !order1 {
+        let mut t = [false; 256];
+        for b in x {
+            t[*b as usize] = true;
+        }
+        return vec![t];
+    }
+    let mut succ = vec![[false; 256]; 256];
+    let q = x.len() / 4;
+    if q > 0 {
+        for j in 0..4 {
+            succ[0][x[j * q] as usize] = true;
+        }
+    }
+    for w in x.windows(2) {
+        succ[w[0] as usize][w[1] as usize] = true;
+    }
+    let mut ctxs = [false; 256];
+    let mut out = Vec::new();
+    for (c, s) in succ.iter().enumerate() {
+        if s.iter().any(|b| *b) {
+            ctxs[c] = true;
+            out.push(*s);
+        }
+    }
+    out.push(ctxs);
+    out
+}
+
+pub fn check_r4x8(c: &R4x8Case) -> Verdict {
+    let x = c.bytes();
+    let order1 = c.order != 0;
+    let order = if order1 { rans_4x8::Order::One } else { rans_4x8::Order::Zero };
+    let tables = tables_4x8(&x, order1);
+    let cls_a = tables.iter().any(|t| !t[0] && t[1]);
+    let cls_b = tables.iter().any(|t| t[253] && t[254] && t[255]);
+    let cls_empty = x.is_empty() && !order1;
+    let classes: [Class; 3] = [
+        (cls_empty, "c08.rans4x8.empty-input", d_4x8_empty),
+        (cls_a, "c08.rans4x8.symlist-first-symbol-1", d_4x8_first1),
+        (cls_b, "c08.rans4x8.symlist-run-reaching-255", d_4x8_run255),
+    ];
+    limit_memory();
+    let norm = worst_norm(&x, order1, 4, 4095);
+    if norm == Norm::Zero && d_4x8_norm() {
+        // not handed to the encoder: it would loop forever appending to its output
+        return fail1("c08.rans4x8.normalise-zero-frequency", format!("order {}: normalisation leaves the most frequent symbol of a table with frequency 0 ({} input bytes); the encoder's renormalisation loop does not terminate (not executed)", c.order, x.len()));
+    }
+    let pass = |nontrivial: bool| {
+        Pass::new(nontrivial, key_of(c))
+            .label_if(norm == Norm::Underflow, "class:normalise-underflow")
+            .label_if(norm == Norm::MulOverflow, "class:normalise-multiply-overflow")
+            .label(if order1 { "order1" } else { "order0" })
+            .label(len_label(x.len()))
+            .label(["len%4=0", "len%4=1", "len%4=2", "len%4=3"][x.len() % 4])
+            .label(c.data.class_name())
+            .label_if(c.safe, "sanitised")
+            .label_if(cls_a, "class:first-symbol-1")
+            .label_if(cls_b, "class:run-reaching-255")
+            .label_if(distinct_symbols(&x) == 256, "all-256-symbols")
+    };
+
+    let enc = match guard(|| nv::rans_4x8_encode(order, &x)) {
+        Out::Ok(e) => e,
+        Out::Err(e) => {
+            // documented: "We do not permit Order-1 encoding of data streams smaller than 4 bytes"
+            if order1 && x.len() < 4 && e.kind() == io::ErrorKind::InvalidInput {
+                return Ok(pass(false).label("order1-short-input-rejected"));
+            }
+            return fail1(attribute(&classes, "c08.rans4x8.encode-error".into()), format!("encode({:?}, {} bytes) returned an error: {e}", order, x.len()));
+        }
+        // (the symbol-list classes concern the table writer, which does not panic: no attribution)
+        Out::Panic(p) => return fail1(p.sig(), format!("encode({:?}, {} bytes): {}", order, x.len(), p.describe())),
+    };
+
+    let mut fails = Fails::new();
+    // (1) own round trip
+    match guard(|| nv::rans_4x8_decode(&enc)) {
+        Out::Ok(y) => {
+            if y != x {
+                fails.push(attribute(&classes, "c08.rans4x8.roundtrip".into()), describe_mismatch("decode(encode(x))", &y, &x));
+            }
+        }
+        Out::Err(e) => fails.push(attribute(&classes, "c08.rans4x8.decode-error".into()), format!("decode of noodles' own stream ({} bytes for {} input bytes) failed: {e}", enc.len(), x.len())),
+        Out::Panic(p) => fails.push(attribute(&classes, p.sig()), format!("decode of noodles' own stream: {}", p.describe())),
+    }
+    // (2) independent decoder
+    let (r, info) = rans_ref::rans4x8_decode(&enc);
+    let mut ref_ambiguous = false;
+    match r {
+        Ok(y) if y == x => {}
+        _ if info.ambiguous => ref_ambiguous = true,
+        Ok(y) => fails.push(attribute(&classes, "c08.rans4x8.ref-decoder-output".into()), describe_mismatch("reference decoder on noodles' stream", &y, &x)),
+        Err(e) => fails.push(attribute(&classes, format!("c08.rans4x8.ref-decoder-{}", e.stage.name())), format!("reference decoder rejects noodles' stream at {}: {}", e.stage.name(), e.msg)),
+    }
+    // bytes the reference decoder never reads are not an error by the text: counted only
+    let trailing = !ref_ambiguous && info.trailing != 0;
+    // dedupe identical attributed signatures (own + reference failing for the same known reason)
+    fails.0.dedup_by(|a, b| a.sig == b.sig);
+    fails.finish(pass(nontrivial_bytes(&x)).label_if(ref_ambiguous, "ref-ambiguous(empty)").label_if(trailing, "unread-trailing-bytes"))
+}
+
+// ================================================================================================
+// rANS Nx16
+
+pub const NX_ORDER: u8 = 0x01;
+pub const NX_N32: u8 = 0x04;
+pub const NX_STRIPE: u8 = 0x08;
+pub const NX_NOSZ: u8 = 0x10;
+pub const NX_CAT: u8 = 0x20;
+pub const NX_RLE: u8 = 0x40;
+pub const NX_PACK: u8 = 0x80;
+
+#[derive(Clone, Debug, Serialize, Deserialize)]
+pub struct FlagCase {
+    pub data: Data,
+    /// any subset of the seven defined option bits (the reserved bit 0x02 is never set)
+    pub flags: u8,
+    /// remove the symbol that leads into the known defect of this codec (Nx16: 1 → 2; AAC: 255 → 254)
+    pub safe: bool,
+}
+
+fn flag_strategy(max: u32, huge: bool) -> BoxedStrategy<FlagCase> {
+    let flags = prop_oneof![
+        // every subset
+        6 => any::<u8>().prop_map(|f| f & !0x02),
+        // single flags and the plain codec get extra weight
+        2 => proptest::sample::select(vec![0u8, 0x01, 0x04, 0x05, 0x08, 0x10, 0x20, 0x40, 0x41, 0x80, 0x81, 0xc0, 0xc1, 0x44, 0x84, 0xc5]),
+    ];
+    (data_strategy(max, huge), flags, prop_oneof![3 => Just(true), 1 => Just(false)]).prop_map(|(data, flags, safe)| FlagCase { data, flags, safe }).boxed()
+}
+
+fn nx16_strategy(tier: Tier) -> BoxedStrategy<FlagCase> {
+    flag_strategy(tier.pick(24_000, 300_000), true)
+}
+
+fn flag_labels(mut p: Pass, flags: u8, names: &[(u8, &'static str)]) -> Pass {
+    if flags == 0 {
+        p = p.label("flags:none");
+    }
+    for (bit, name) in names {
+        if flags & bit != 0 {
+            p = p.label(name);
+        }
+    }
+    p
+}
+
+pub fn check_nx16(c: &FlagCase) -> Verdict {
+    let mut x = c.data.expand();
+    if c.safe {
+        for b in x.iter_mut() {
+            if *b == 1 {
+                *b = 2;
+            }
+        }
+    }
+    let flags = c.flags & !0x02;
+    let n = if flags & NX_N32 != 0 { 32 } else { 4 };
+    let base = |nontrivial: bool| {
+        let p = Pass::new(nontrivial, key_of(c)).label(len_label(x.len())).label(c.data.class_name()).label_if(c.safe, "sanitised");
+        let p = flag_labels(p, flags, &[(NX_ORDER, "ORDER"), (NX_N32, "N32"), (NX_STRIPE, "STRIPE"), (NX_NOSZ, "NO_SIZE"), (NX_CAT, "CAT"), (NX_RLE, "RLE"), (NX_PACK, "PACK")]);
+        p.label_if(x.len() % n != 0, "len%N!=0").label_if(x.len() >= n && x.len() < 2 * n, "N<=len<2N").label_if(x.len() < n, "len<N")
+    };
+
+    limit_memory();
+    // tables of the untransformed input (exact without PACK/RLE; STRIPE codes the four byte-interleaved
+    // sub-streams with order 0)
+    let norm = if flags & NX_CAT != 0 && flags & NX_STRIPE == 0 {
+        Norm::Fine
+    } else if flags & NX_STRIPE != 0 {
+        let mut w = Norm::Fine;
+        for j in 0..4 {
+            let subx: Vec<u8> = x.iter().skip(j).step_by(4).copied().collect();
+            let o = worst_norm(&subx, false, 4, 4096);
+            if o == Norm::Zero || w == Norm::Fine {
+                w = o;
+            }
+        }
+        w
+    } else {
+        worst_norm(&x, flags & NX_ORDER != 0, n, 4096)
+    };
+    if norm == Norm::Zero && d_nx16_norm() {
+        return fail1("c08.nx16.normalise-zero-frequency", format!("flags {flags:#04x}: normalisation leaves the most frequent symbol of a table with frequency 0 ({} input bytes); the encoder's renormalisation loop does not terminate (not executed)", x.len()));
+    }
+    let enc = match guard(|| nv::rans_nx16_encode(rans_nx16::Flags::from(flags), &x)) {
+        Out::Ok(e) => e,
+        Out::Err(e) => return fail1("c08.nx16.encode-error", format!("encode(flags {flags:#04x}, {} bytes) returned an error: {e}", x.len())),
+        Out::Panic(p) => return fail1(p.sig(), format!("encode(flags {flags:#04x}, {} bytes): {}", x.len(), p.describe())),
+    };
+    // the independent walk also tells whether the stream contains a symbol list starting with 1
+    let ext = if flags & NX_NOSZ != 0 { Some(x.len()) } else { None };
+    let (r, info) = rans_ref::nx16_decode(&enc, ext);
+    let eff = enc.first().copied().unwrap_or(0);
+    // order-1 entropy coding actually used (the encoder falls back to CAT for inputs shorter than N)
+    let cls_o1 = eff & NX_ORDER != 0 && eff & (NX_CAT | NX_STRIPE) == 0;
+    let classes: [Class; 2] = [(info.symlist_first_1, "c08.nx16.symlist-first-symbol-1", d_nx16_first1), (cls_o1, "c08.nx16.order1-renormalisation-order", d_nx16_order1)];
+
+    let mut fails = Fails::new();
+    // (1) own round trip; the size argument is only meaningful with NO_SIZE (the unit tests pass 0)
+    let hint = if flags & NX_NOSZ != 0 { x.len() } else { 0 };
+    match guard(|| nv::rans_nx16_decode(&enc, hint)) {
+        Out::Ok(y) => {
+            if y != x {
+                fails.push(attribute(&classes, "c08.nx16.roundtrip".into()), describe_mismatch(&format!("decode(encode(x)) flags {flags:#04x}"), &y, &x));
+            }
+        }
+        Out::Err(e) => fails.push(attribute(&classes, "c08.nx16.decode-error".into()), format!("decode of noodles' own stream (flags {flags:#04x}, {} bytes for {} input bytes) failed: {e}", enc.len(), x.len())),
+        Out::Panic(p) => fails.push(attribute(&classes, p.sig()), format!("decode of noodles' own stream (flags {flags:#04x}): {}", p.describe())),
+    }
+    // (2) independent decoder
+    let mut ref_ambiguous = false;
+    match r {
+        Ok(y) if y == x => {}
+        _ if info.ambiguous => ref_ambiguous = true,
+        Ok(y) => fails.push(attribute(&classes, "c08.nx16.ref-decoder-output".into()), describe_mismatch(&format!("reference decoder on noodles' stream (flags {flags:#04x})"), &y, &x)),
+        Err(e) => fails.push(attribute(&classes, format!("c08.nx16.ref-decoder-{}", e.stage.name())), format!("reference decoder rejects noodles' stream (flags {flags:#04x}) at {}: {}", e.stage.name(), e.msg)),
+    }
+    fails.0.dedup_by(|a, b| a.sig == b.sig);
+    fails.finish(
+        base(nontrivial_bytes(&x))
+            .label_if(cls_o1, "order1-coded")
+            .label_if(ref_ambiguous, "ref-ambiguous")
+            .label_if(info.symlist_first_1, "class:first-symbol-1")
+            .label_if(eff & NX_CAT != 0 && flags & NX_CAT == 0, "encoder-fell-back-to-CAT")
+            .label_if(flags & NX_PACK != 0 && eff & NX_PACK == 0 && flags & NX_STRIPE == 0, "encoder-dropped-PACK")
+            .label_if(flags & NX_RLE != 0 && eff & NX_RLE == 0 && flags & NX_STRIPE == 0, "encoder-dropped-RLE")
+            .label_if(info.trailing != 0, "unread-trailing-bytes")
+            .label_if(info.entropy_streams > 0, "entropy-coded"),
+    )
+}
+
+// ================================================================================================
+// Adaptive arithmetic coder
+
+pub const AAC_ORDER: u8 = 0x01;
+pub const AAC_EXT: u8 = 0x04;
+pub const AAC_STRIPE: u8 = 0x08;
+pub const AAC_NOSZ: u8 = 0x10;
+pub const AAC_CAT: u8 = 0x20;
+pub const AAC_RLE: u8 = 0x40;
+pub const AAC_PACK: u8 = 0x80;
+
+fn aac_strategy(tier: Tier) -> BoxedStrategy<FlagCase> {
+    flag_strategy(tier.pick(16_000, 200_000), false)
+}
+
+/// Bit packing as the specification defines it (symbols mapped to their rank, least significant
+/// bits first); `None` when it does not apply (no symbols or more than 16).
+fn pack_by_rank(x: &[u8]) -> Option<Vec<u8>> {
+    let mut present = [false; 256];
+    for b in x {
+        present[*b as usize] = true;
+    }
+    let mut rank = [0u8; 256];
+    let mut nsym = 0usize;
+    for s in 0..256 {
+        if present[s] {
+            rank[s] = nsym as u8;
+            nsym += 1;
+        }
+    }
+    let per_byte = match nsym {
+        0 => return None,
+        1 => return Some(Vec::new()),
+        2 => 8,
+        3..=4 => 4,
+        5..=16 => 2,
+        _ => return None,
+    };
+    let bits = 8 / per_byte;
+    let mut out = vec![0u8; x.len().div_ceil(per_byte)];
+    for (i, b) in x.iter().enumerate() {
+        out[i / per_byte] |= rank[*b as usize] << (bits * (i % per_byte));
+    }
+    Some(out)
+}
+
+/// The byte strings that reach one of the adaptive-model coders (order 0/1, with or without RLE)
+/// for this input and flag set; empty when the data is stored (CAT) or handed to bzip2 (EXT).
+fn aac_coder_inputs(x: &[u8], flags: u8) -> Vec<Vec<u8>> {
+    if flags & AAC_STRIPE != 0 {
+        return (0..4).map(|j| x.iter().skip(j).step_by(4).copied().collect()).collect();
+    }
+    let mut src = x.to_vec();
+    if flags & AAC_PACK != 0 {
+        if let Some(p) = pack_by_rank(x) {
+            src = p;
+        }
+    }
+    if flags & (AAC_CAT | AAC_EXT) != 0 { Vec::new() } else { vec![src] }
+}
+
+pub fn check_aac(c: &FlagCase) -> Verdict {
+    let mut x = c.data.expand();
+    if c.safe {
+        for b in x.iter_mut() {
+            if *b == 255 {
+                *b = 254;
+            }
+        }
+    }
+    limit_memory();
+    let flags = c.flags & !0x02;
+    let inputs = aac_coder_inputs(&x, flags);
+    let cls_empty = inputs.iter().any(|i| i.is_empty());
+    let cls_255 = inputs.iter().any(|i| i.contains(&255));
+    let classes: [Class; 2] = [(cls_empty, "c08.aac.empty-coder-input", d_aac_empty), (cls_255, "c08.aac.symbol-255", d_aac_255)];
+    let base = |nontrivial: bool| {
+        let p = Pass::new(nontrivial, key_of(c)).label(len_label(x.len())).label(c.data.class_name()).label_if(c.safe, "sanitised");
+        let p = flag_labels(p, flags, &[(AAC_ORDER, "ORDER"), (AAC_EXT, "EXT"), (AAC_STRIPE, "STRIPE"), (AAC_NOSZ, "NO_SIZE"), (AAC_CAT, "CAT"), (AAC_RLE, "RLE"), (AAC_PACK, "PACK")]);
+        p.label_if(cls_empty, "class:empty-coder-input").label_if(cls_255, "class:symbol-255").label_if(!inputs.is_empty(), "model-coded")
+    };
+    let enc = match guard(|| nv::aac_encode(aac::Flags::from(flags), &x)) {
+        Out::Ok(e) => e,
+        Out::Err(e) => return fail1(attribute(&classes, "c08.aac.encode-error".into()), format!("encode(flags {flags:#04x}, {} bytes) returned an error: {e}", x.len())),
+        Out::Panic(p) => return fail1(attribute(&classes, p.sig()), format!("encode(flags {flags:#04x}, {} bytes): {}", x.len(), p.describe())),
+    };
+    let hint = if flags & AAC_NOSZ != 0 { x.len() } else { 0 };
+    match guard(|| nv::aac_decode(&enc, hint)) {
+        Out::Ok(y) => {
+            if y != x {
+                return fail1(attribute(&classes, "c08.aac.roundtrip".into()), describe_mismatch(&format!("decode(encode(x)) flags {flags:#04x}"), &y, &x));
+            }
+        }
+        Out::Err(e) => return fail1(attribute(&classes, "c08.aac.decode-error".into()), format!("decode of noodles' own stream (flags {flags:#04x}, {} bytes for {} input bytes) failed: {e}", enc.len(), x.len())),
+        Out::Panic(p) => return fail1(attribute(&classes, p.sig()), format!("decode of noodles' own stream (flags {flags:#04x}): {}", p.describe())),
+    }
+    let eff = enc.first().copied().unwrap_or(0);
+    Ok(base(nontrivial_bytes(&x)).label_if(flags & AAC_PACK != 0 && eff & AAC_PACK == 0 && flags & AAC_STRIPE == 0, "encoder-dropped-PACK"))
+}
+
+// ================================================================================================
+// fqzcomp
+
+#[derive(Clone, Debug, Serialize, Deserialize)]
+pub enum Lens {
+    /// `n` records of the same length (the encoder then stores the length once)
+    Equal { n: u16, len: u16 },
+    Var(Vec<u32>),
+}
+
+#[derive(Clone, Debug, Serialize, Deserialize)]
+pub struct FqzCase {
+    pub lens: Lens,
+    /// 0 constant, 1 decaying along the record, 2 uniform, 3 binned (4 levels)
+    pub class: u8,
+    /// number of distinct quality values available (0 = 256)
+    pub nsym: u8,
+    pub seed: u32,
+    /// keep zero-length records (a known defect class); otherwise they are turned into length 1
+    pub allow_zero: bool,
+    /// literal quality bytes (libFuzzer tier); the lengths are then cut / extended to partition them
+    #[serde(default)]
+    pub lit: Option<Vec<u8>>,
+}
+
+impl FqzCase {
+    pub fn lens(&self) -> Vec<usize> {
+        let mut v: Vec<usize> = match &self.lens {
+            Lens::Equal { n, len } => vec![*len as usize; (*n as usize).max(1)],
+            Lens::Var(v) => v.iter().map(|l| *l as usize).collect(),
+        };
+        if !self.allow_zero {
+            for l in v.iter_mut() {
+                if *l == 0 {
+                    *l = 1;
+                }
+            }
+        }
+        if let Some(q) = &self.lit {
+            let mut out = Vec::new();
+            let mut left = q.len();
+            for l in v {
+                if left == 0 {
+                    break;
+                }
+                let l = l.min(left);
+                out.push(l);
+                left -= l;
+            }
+            if left > 0 || out.is_empty() {
+                out.push(left);
+            }
+            return out;
+        }
+        // the CRAM writer never passes an empty quality block (empty external blocks are dropped)
+        if v.iter().sum::<usize>() == 0 {
+            v = vec![1];
+        }
+        v
+    }
+    pub fn quals(&self, lens: &[usize]) -> Vec<u8> {
+        if let Some(q) = &self.lit {
+            return q.clone();
+        }
+        let nsym = if self.nsym == 0 { 256usize } else { self.nsym as usize };
+        let mut r = XorShift::new(self.seed as u64 + 77);
+        let mut out = Vec::with_capacity(lens.iter().sum());
+        let constant = (r.next() >> 9) as usize % nsym;
+        for &rl in lens {
+            let top = (r.next() >> 9) as usize % nsym;
+            for p in 0..rl {
+                let x = (r.next() >> 11) as usize;
+                let q = match self.class % 4 {
+                    0 => constant,
+                    1 => (top * (rl - p) / rl + x % 3).min(nsym - 1),
+                    2 => x % nsym,
+                    _ => [0usize, nsym / 3, 2 * nsym / 3, nsym - 1][x % 4],
+                };
+                out.push(q as u8);
+            }
+        }
+        out
+    }
+}
+
+fn fqz_strategy(_tier: Tier) -> BoxedStrategy<FqzCase> {
+    let one_len = prop_oneof![
+        2 => Just(0u32),
+        12 => 1u32..=6,
+        12 => 30u32..=160,
+        4 => 126u32..=131,
+        1 => 1020u32..=1030,
+        1 => 1u32..=3000,
+    ];
+    let lens = prop_oneof![
+        3 => (1u16..=60, proptest::sample::select(vec![1u16, 2, 3, 5, 36, 100, 128, 129, 151, 250])).prop_map(|(n, len)| Lens::Equal { n, len }),
+        1 => (1u16..=3, 1000u16..=3000).prop_map(|(n, len)| Lens::Equal { n, len }),
+        8 => proptest::collection::vec(one_len, 1..=40).prop_map(Lens::Var),
+    ];
+    let nsym = prop_oneof![1 => Just(1u8), 6 => 2u8..=94, 1 => proptest::sample::select(vec![95u8, 128, 255, 0])];
+    (lens, 0u8..4, nsym, any::<u32>(), prop_oneof![9 => Just(false), 1 => Just(true)]).prop_map(|(lens, class, nsym, seed, allow_zero)| FqzCase { lens, class, nsym, seed, allow_zero, lit: None }).boxed()
+}
+
+pub fn check_fqz(c: &FqzCase) -> Verdict {
+    limit_memory();
+    let lens = c.lens();
+    let x = c.quals(&lens);
+    let total: usize = lens.iter().sum();
+    // a zero-length record that is reached while quality bytes remain
+    let mut prefix = 0usize;
+    let mut cls_zero = false;
+    for l in &lens {
+        if *l == 0 && prefix < total {
+            cls_zero = true;
+        }
+        prefix += l;
+    }
+    let classes: [Class; 1] = [(cls_zero, "c08.fqzcomp.zero-length-record", d_fqz_zero)];
+    let enc = match guard(|| nv::fqzcomp_encode(&lens, &x)) {
+        Out::Ok(e) => e,
+        Out::Err(e) => return fail1(attribute(&classes, "c08.fqzcomp.encode-error".into()), format!("encode({} records, {} bytes) returned an error: {e}", lens.len(), x.len())),
+        Out::Panic(p) => return fail1(attribute(&classes, p.sig()), format!("encode({} records, {} bytes): {}", lens.len(), x.len(), p.describe())),
+    };
+    match guard(|| nv::fqzcomp_decode(&enc)) {
+        Out::Ok(y) => {
+            if y != x {
+                return fail1(attribute(&classes, "c08.fqzcomp.roundtrip".into()), describe_mismatch(&format!("decode(encode(x)) with {} records", lens.len()), &y, &x));
+            }
+        }
+        Out::Err(e) => return fail1(attribute(&classes, "c08.fqzcomp.decode-error".into()), format!("decode of noodles' own stream ({} records, {} bytes) failed: {e}", lens.len(), x.len())),
+        Out::Panic(p) => return fail1(attribute(&classes, p.sig()), format!("decode of noodles' own stream: {}", p.describe())),
+    }
+    let equal = lens.windows(2).all(|w| w[0] == w[1]);
+    Ok(Pass::new(nontrivial_bytes(&x), key_of(c))
+        .label(len_label(x.len()))
+        .label(["constant", "decaying", "uniform", "binned"][(c.class % 4) as usize])
+        .label_if(equal && lens.len() > 1, "equal-lengths")
+        .label_if(!equal, "varying-lengths")
+        .label_if(lens.len() == 1, "single-record")
+        .label_if(lens.contains(&0), "has-zero-length-record")
+        .label_if(cls_zero, "class:zero-length-record")
+        .label_if(lens.iter().any(|l| *l > 1023), "record>1023")
+        .label_if(lens[0] > 128, "first-record>128")
+        .label_if(lens.iter().any(|l| *l == 1), "record-len-1")
+        .label_if(c.nsym == 0 || c.nsym > 94, "symbols>94")
+        .label_if(c.nsym == 1, "one-symbol"))
+}
+
+// ================================================================================================
+// Name tokenizer
+
+#[derive(Clone, Debug, Serialize, Deserialize, PartialEq)]
+pub enum Tok {
+    /// an alphanumeric word from a fixed pool
+    Word(u8),
+    /// one letter
+    Ch(u8),
+    /// decimal number without padding
+    Num(u32),
+    /// decimal number zero-padded to a width
+    ZNum(u32, u8),
+    /// separator (some are two characters long)
+    Sep(u8),
+    /// arbitrary non-NUL bytes
+    Raw(Vec<u8>),
+}
+
+#[derive(Clone, Debug, Serialize, Deserialize, PartialEq)]
+pub enum Edit {
+    /// add `d` to the selected numeric token
+    Delta { pos: u16, d: i32 },
+    SetNum { pos: u16, v: u32 },
+    /// change the zero padding of the selected numeric token (0 = none)
+    Repad { pos: u16, width: u8 },
+    SetWord { pos: u16, w: u8 },
+    Push(Tok),
+    Pop,
+    /// repeat the name emitted `back` names ago
+    DupBack(u16),
+    /// emit an empty name
+    Empty,
+    /// emit the current name again
+    Same,
+    /// emit a name made of `n` one-character tokens
+    Many(u16),
+    /// emit a name that is one alphabetic token of length `n`
+    Long(u16),
+}
+
+#[derive(Clone, Debug, Serialize, Deserialize)]
+pub struct NamesCase {
+    pub base: Vec<Tok>,
+    /// each edit emits one more name
+    pub edits: Vec<Edit>,
+    /// render only token kinds whose byte streams cannot start a symbol list with symbol 1
+    /// (single characters and numbers; +1 deltas become +2), so that lists of ≥4 names stay outside
+    /// the known Nx16 defect
+    pub plain: bool,
+    /// literal NUL-terminated name list (libFuzzer tier); `base` and `edits` are then ignored
+    #[serde(default)]
+    pub lit: Option<Vec<u8>>,
+}
+
+const WORDS: [&str; 12] = ["read", "I17", "HWI", "xy", "SRR", "ab", "ERR12a", "qq", "flow", "ZZ", "run", "lane"];
+const SEPS: [&str; 10] = [":", "_", "#", "/", ".", "-", " ", "::", "/#", "|"];
+
+impl NamesCase {
+    fn render(&self, toks: &[Tok]) -> Vec<u8> {
+        let mut out = Vec::new();
+        for t in toks {
+            match t {
+                Tok::Word(w) => {
+                    if self.plain {
+                        out.push(b'a' + w % 26);
+                    } else {
+                        out.extend_from_slice(WORDS[*w as usize % WORDS.len()].as_bytes());
+                    }
+                }
+                Tok::Ch(b) => out.push(b'A' + b % 26),
+                Tok::Num(v) => out.extend_from_slice(v.to_string().as_bytes()),
+                Tok::ZNum(v, w) => {
+                    let w = if self.plain { (*w).max(2) } else { *w };
+                    out.extend_from_slice(format!("{:0width$}", v, width = w as usize).as_bytes());
+                }
+                Tok::Sep(i) => {
+                    let s = SEPS[*i as usize % SEPS.len()].as_bytes();
+                    if self.plain {
+                        out.push(s[0]);
+                    } else {
+                        out.extend_from_slice(s);
+                    }
+                }
+                Tok::Raw(b) => {
+                    if !self.plain {
+                        out.extend(b.iter().map(|x| if *x == 0 { 0x7f } else { *x }));
+                    }
+                }
+            }
+        }
+        out
+    }
+
+    pub fn names(&self) -> Vec<Vec<u8>> {
+        if let Some(raw) = &self.lit {
+            let body = raw.strip_suffix(&[0]).unwrap_or(raw);
+            return body.split(|b| *b == 0).map(|n| n.to_vec()).collect();
+        }
+        let mut cur = self.base.clone();
+        let mut names = vec![self.render(&cur)];
+        for e in &self.edits {
+            let numeric: Vec<usize> = cur.iter().enumerate().filter(|(_, t)| matches!(t, Tok::Num(_) | Tok::ZNum(..))).map(|(i, _)| i).collect();
+            let words: Vec<usize> = cur.iter().enumerate().filter(|(_, t)| matches!(t, Tok::Word(_))).map(|(i, _)| i).collect();
+            let mut emit: Option<Vec<u8>> = None;
+            match e {
+                Edit::Delta { pos, d } => {
+                    if !numeric.is_empty() {
+                        let d = if self.plain && *d == 1 { 2 } else { *d };
+                        let i = numeric[pick_idx(*pos, numeric.len())];
+                        cur[i] = match &cur[i] {
+                            Tok::Num(v) => Tok::Num(v.saturating_add_signed(d)),
+                            Tok::ZNum(v, w) => Tok::ZNum(v.saturating_add_signed(d), *w),
+                            other => other.clone(),
+                        };
+                    }
+                }
+                Edit::SetNum { pos, v } => {
+                    if !numeric.is_empty() {
+                        let i = numeric[pick_idx(*pos, numeric.len())];
+                        cur[i] = match &cur[i] {
+                            Tok::ZNum(_, w) => Tok::ZNum(*v, *w),
+                            _ => Tok::Num(*v),
+                        };
+                    }
+                }
+                Edit::Repad { pos, width } => {
+                    if !numeric.is_empty() {
+                        let i = numeric[pick_idx(*pos, numeric.len())];
+                        let v = match &cur[i] {
+                            Tok::Num(v) | Tok::ZNum(v, _) => *v,
+                            _ => 0,
+                        };
+                        cur[i] = if *width == 0 { Tok::Num(v) } else { Tok::ZNum(v, *width) };
+                    }
+                }
+                Edit::SetWord { pos, w } => {
+                    if !words.is_empty() {
+                        let i = words[pick_idx(*pos, words.len())];
+                        cur[i] = Tok::Word(*w);
+                    }
+                }
+                Edit::Push(t) => cur.push(t.clone()),
+                Edit::Pop => {
+                    cur.pop();
+                }
+                Edit::DupBack(back) => {
+                    let b = (*back as usize).clamp(1, names.len());
+                    emit = Some(names[names.len() - b].clone());
+                }
+                Edit::Empty => emit = Some(Vec::new()),
+                Edit::Same => {}
+                Edit::Many(n) => emit = Some((0..*n as usize).map(|i| if i % 2 == 0 { b'a' + (i / 2 % 26) as u8 } else { b':' }).collect()),
+                Edit::Long(n) => {
+                    if !self.plain {
+                        emit = Some((0..*n as usize).map(|i| b'a' + (i % 23) as u8).collect());
+                    }
+                }
+            }
+            let name = emit.unwrap_or_else(|| self.render(&cur));
+            names.push(name);
+        }
+        names
+    }
+}
+
+fn tok_strategy() -> BoxedStrategy<Tok> {
+    prop_oneof![
+        3 => (0u8..12).prop_map(Tok::Word),
+        1 => any::<u8>().prop_map(Tok::Ch),
+        4 => prop_oneof![
+            3 => 0u32..2000,
+            1 => proptest::sample::select(vec![0u32, 1, 9, 10, 99, 254, 255, 256, 65535, 65536, 16843009, 4294967040, 4294967294, 4294967295]),
+            1 => any::<u32>(),
+        ].prop_map(Tok::Num),
+        3 => (prop_oneof![3 => 0u32..2000, 1 => proptest::sample::select(vec![0u32, 9, 99, 999, 4294967295]), 1 => any::<u32>()], 1u8..=12).prop_map(|(v, w)| Tok::ZNum(v, w)),
+        6 => (0u8..10).prop_map(Tok::Sep),
+        1 => proptest::collection::vec(prop_oneof![4 => 1u8..=255, 1 => proptest::sample::select(vec![1u8, 0x20, 0x7f, 0x80, 0xff])], 1..4).prop_map(Tok::Raw),
+    ]
+    .boxed()
+}
+
+/// Base names mostly alternate alphanumeric tokens and separators (so that numbers stay tokens of
+/// their own); arbitrary sequences are mixed in.
+fn base_strategy() -> BoxedStrategy<Vec<Tok>> {
+    let alnum = prop_oneof![
+        2 => (0u8..12).prop_map(Tok::Word),
+        4 => (0u32..3000).prop_map(Tok::Num),
+        1 => any::<u32>().prop_map(Tok::Num),
+        3 => (0u32..3000, 1u8..=9).prop_map(|(v, w)| Tok::ZNum(v, w)),
+        1 => any::<u8>().prop_map(Tok::Ch),
+    ];
+    let alternating = proptest::collection::vec((alnum, (0u8..10).prop_map(Tok::Sep)), 0..8).prop_map(|pairs| {
+        let mut v = Vec::new();
+        for (a, s) in pairs {
+            v.push(a);
+            v.push(s);
+        }
+        v.pop();
+        v
+    });
+    prop_oneof![4 => alternating, 1 => proptest::collection::vec(tok_strategy(), 0..10)].boxed()
+}
+
+fn edit_strategy() -> BoxedStrategy<Edit> {
+    let d = proptest::sample::select(vec![0i32, 1, 1, 1, 2, 3, 254, 255, 256, 257, 1000, 65536, -1, -2, -255, -256]);
+    prop_oneof![
+        10 => (any::<u16>(), d).prop_map(|(pos, d)| Edit::Delta { pos, d }),
+        2 => (any::<u16>(), prop_oneof![0u32..3000, any::<u32>()]).prop_map(|(pos, v)| Edit::SetNum { pos, v }),
+        2 => (any::<u16>(), 0u8..=6).prop_map(|(pos, width)| Edit::Repad { pos, width }),
+        2 => (any::<u16>(), 0u8..12).prop_map(|(pos, w)| Edit::SetWord { pos, w }),
+        2 => tok_strategy().prop_map(Edit::Push),
+        2 => Just(Edit::Pop),
+        3 => (1u16..6).prop_map(Edit::DupBack),
+        1 => Just(Edit::Empty),
+        3 => Just(Edit::Same),
+        1 => prop_oneof![6 => 1u16..40, 2 => 120u16..=130, 1 => 1u16..400].prop_map(Edit::Many),
+        1 => prop_oneof![3 => 1u16..300, 1 => 250u16..=260].prop_map(Edit::Long),
+    ]
+    .boxed()
+}
+
+fn names_strategy(tier: Tier) -> BoxedStrategy<NamesCase> {
+    let max_edits = tier.pick(40usize, 150);
+    let edits = prop_oneof![
+        2 => proptest::collection::vec(edit_strategy(), 0..=2),
+        2 => proptest::collection::vec(edit_strategy(), 3..=12),
+        1 => proptest::collection::vec(edit_strategy(), 3..=max_edits),
+    ];
+    (base_strategy(), edits, any::<bool>()).prop_map(|(base, edits, plain)| NamesCase { base, edits, plain, lit: None }).boxed()
+}
+
+/// Maximal runs of ASCII alphanumerics / of everything else (the token boundaries the
+/// specification prescribes).
+fn split_tokens(name: &[u8]) -> Vec<&[u8]> {
+    let mut out = Vec::new();
+    let mut start = 0;
+    for i in 1..=name.len() {
+        if i == name.len() || name[i].is_ascii_alphanumeric() != name[start].is_ascii_alphanumeric() {
+            out.push(&name[start..i]);
+            start = i;
+        }
+    }
+    out
+}
+
+fn parse_dec_u32(t: &[u8]) -> Option<u32> {
+    if t.is_empty() || !t.iter().all(|b| b.is_ascii_digit()) {
+        return None;
+    }
+    let mut v: u64 = 0;
+    for b in t {
+        v = v * 10 + (*b - b'0') as u64;
+        if v > u32::MAX as u64 {
+            return None;
+        }
+    }
+    Some(v as u32)
+}
+
+/// Walk the tokenizer container: is there an Nx16 sub-stream whose symbol list starts with symbol
+/// 1, and do all sub-streams decode identically under noodles' decoder and the reference decoder.
+fn tok3_walk(enc: &[u8]) -> (bool, u32, Option<String>) {
+    let mut first1 = false;
+    let mut n = 0u32;
+    if enc.len() < 9 {
+        return (false, 0, Some("container shorter than its header".into()));
+    }
+    if enc[8] != 0 {
+        return (false, 0, None); // arithmetic-coded sub-streams: no reference decoder here
+    }
+    let mut p = 9;
+    while p < enc.len() {
+        let ttype = enc[p];
+        p += 1;
+        if ttype & 0x40 != 0 {
+            p += 2;
+            continue;
+        }
+        let Ok((clen, used)) = varint_ref::uint7_decode(&enc[p.min(enc.len())..]) else {
+            return (first1, n, Some("bad sub-stream length".into()));
+        };
+        p += used;
+        let end = p + clen as usize;
+        if end > enc.len() {
+            return (first1, n, Some("sub-stream exceeds the container".into()));
+        }
+        let sub = &enc[p..end];
+        p = end;
+        n += 1;
+        let (r, info) = rans_ref::nx16_decode(sub, None);
+        first1 |= info.symlist_first_1;
+        let own = guard(|| nv::rans_nx16_decode(sub, 0));
+        let agree = match (&r, &own) {
+            (Ok(a), Out::Ok(b)) => a == b,
+            _ => false,
+        };
+        if !agree && !info.ambiguous {
+            let what = match (&r, &own) {
+                (Err(e), _) => format!("reference decoder fails at {}: {}", e.stage.name(), e.msg),
+                (_, Out::Err(e)) => format!("noodles' Nx16 decoder fails: {e}"),
+                (_, Out::Panic(pi)) => format!("noodles' Nx16 decoder panics: {}", pi.describe()),
+                _ => "outputs differ".to_string(),
+            };
+            return (first1, n, Some(format!("sub-stream {n} (type byte {ttype:#04x}, {} bytes): {what}", sub.len())));
+        }
+    }
+    (first1, n, None)
+}
+
+pub fn check_names(c: &NamesCase) -> Verdict {
+    limit_memory();
+    let names = c.names();
+    let mut x = Vec::new();
+    for nme in &names {
+        x.extend_from_slice(nme);
+        x.push(0);
+    }
+    let toks: Vec<Vec<&[u8]>> = names.iter().map(|n| split_tokens(n)).collect();
+    let max_tokens = toks.iter().map(|t| t.len()).max().unwrap_or(0);
+    let cls_many = max_tokens >= 127;
+    let mut cls_delta0 = false;
+    for w in toks.windows(2) {
+        for (tp, tc) in w[0].iter().zip(w[1].iter()) {
+            if tc.len() >= 2 && tc[0] == b'0' && tp[0] != b'0' && tp != tc {
+                if let (Some(a), Some(b)) = (parse_dec_u32(tp), parse_dec_u32(tc)) {
+                    if b >= a && b - a <= 255 {
+                        cls_delta0 = true;
+                    }
+                }
+            }
+        }
+    }
+    let cls_wide = toks.iter().flatten().any(|t| t.len() > 255 && t[0] == b'0' && parse_dec_u32(t).is_some());
+    let dup = names.iter().enumerate().any(|(i, n)| names[..i].contains(n));
+
+    let pass = |nontrivial: bool| {
+        Pass::new(nontrivial, key_of(c))
+            .label(match names.len() {
+                1 => "names=1",
+                2..=3 => "names=2..3",
+                4..=15 => "names=4..15",
+                _ => "names>=16",
+            })
+            .label_if(c.plain, "plain-tokens")
+            .label_if(dup, "has-duplicate-name")
+            .label_if(names.iter().any(|n| n.is_empty()), "has-empty-name")
+            .label_if(max_tokens >= 40, "name>=40-tokens")
+            .label_if(names.iter().any(|n| n.len() > 254), "name>254-bytes")
+            .label_if(toks.windows(2).any(|w| w[0].len() != w[1].len()), "token-count-changes")
+            .label_if(toks.iter().flatten().any(|t| t.len() >= 2 && t[0] == b'0' && t.iter().all(|b| b.is_ascii_digit())), "zero-padded-digits")
+            .label_if(names.iter().any(|n| n.iter().any(|b| *b >= 0x80)), "non-ascii")
+            .label_if(cls_many, "class:>=127-tokens")
+            .label_if(cls_delta0, "class:delta-onto-zero-padded")
+    };
+
+    let enc = match guard(|| nv::name_tokenizer_encode(&x)) {
+        Out::Ok(e) => e,
+        Out::Err(e) => {
+            // the encoder validates the width of a zero-padded number (u8) and says so
+            if cls_wide && e.kind() == io::ErrorKind::InvalidInput {
+                return Ok(pass(false).label("rejected:zero-padded-number-wider-than-255"));
+            }
+            return fail1("c08.tok3.encode-error", format!("encode({} names, {} bytes) returned an error: {e}", names.len(), x.len()));
+        }
+        Out::Panic(p) => return fail1(p.sig(), format!("encode({} names): {}", names.len(), p.describe())),
+    };
+    let (first1, nsub, walk_err) = tok3_walk(&enc);
+    let classes: [Class; 3] = [
+        (first1, "c08.tok3.nx16-symlist-first-symbol-1", d_nx16_first1),
+        (cls_many, "c08.tok3.name-with-127-or-more-tokens", d_tok3_tokens127),
+        (cls_delta0, "c08.tok3.delta-onto-zero-padded-number", d_tok3_delta0),
+    ];
+    let mut fails = Fails::new();
+    if let Some(e) = walk_err {
+        fails.push(attribute(&classes[..1], "c08.tok3.substream-ref-disagrees".into()), e);
+    }
+    match guard(|| nv::name_tokenizer_decode(&enc)) {
+        Out::Ok(y) => {
+            if y != x {
+                fails.push(attribute(&classes, "c08.tok3.roundtrip".into()), describe_mismatch(&format!("decode(encode(x)) with {} names", names.len()), &y, &x));
+            }
+        }
+        Out::Err(e) => fails.push(attribute(&classes, "c08.tok3.decode-error".into()), format!("decode of noodles' own stream ({} names, {} bytes) failed: {e}", names.len(), x.len())),
+        Out::Panic(p) => fails.push(attribute(&classes, p.sig()), format!("decode of noodles' own stream ({} names): {}", names.len(), p.describe())),
+    }
+    fails.0.dedup_by(|a, b| a.sig == b.sig);
+    let ulen = enc.get(..4).map(|b| u32::from_le_bytes([b[0], b[1], b[2], b[3]]) as usize).unwrap_or(usize::MAX - 1);
+    fails.finish(
+        pass(names.len() >= 2 && nontrivial_bytes(&x))
+            .label_if(first1, "class:nx16-first-symbol-1")
+            .label_if(nsub >= 8, "substreams>=8")
+            // the header's `ulen` field is one short of the buffer length (the final NUL is stripped
+            // before it is measured); noodles' decoder uses it only as a capacity hint. Not asserted.
+            .label_if(ulen + 1 == x.len(), "observed:header-ulen=len-1")
+            .label_if(ulen == x.len(), "observed:header-ulen=len"),
+    )
+}
+
+// ================================================================================================
+// gzip / bzip2 / lzma
+
+#[derive(Clone, Debug, Serialize, Deserialize)]
+pub struct GeneralCase {
+    /// 0 gzip, 1 bzip2, 2 lzma (xz container)
+    pub codec: u8,
+    pub level: u8,
+    pub data: Data,
+}
+
+fn general_strategy(tier: Tier) -> BoxedStrategy<GeneralCase> {
+    let max = tier.pick(40_000, 400_000);
+    // xz presets above 6 allocate hundreds of MiB per call: rare, thorough only
+    let xz_max = tier.pick(6u8, 9);
+    let codec_level = prop_oneof![
+        16 => (0u8..=9).prop_map(|l| (0u8, l)),
+        16 => (1u8..=9).prop_map(|l| (1u8, l)),
+        15 => (0u8..=6).prop_map(|l| (2u8, l)),
+        1 => (6u8..=xz_max).prop_map(|l| (2u8, l)),
+    ];
+    (codec_level, data_strategy(max, false)).prop_map(|((codec, level), data)| GeneralCase { codec, level, data }).boxed()
+}
+
+/// Independent gzip reader: RFC 1952 member header by hand, DEFLATE by miniz_oxide, CRC by
+/// crc32fast (noodles uses flate2 with zlib-rs).
+fn gunzip_independent(src: &[u8]) -> Result<Vec<u8>, String> {
+    if src.len() < 18 || src[0] != 0x1f || src[1] != 0x8b || src[2] != 8 {
+        return Err("not a gzip member".into());
+    }
+    let flg = src[3];
+    let mut p = 10usize;
+    if flg & 4 != 0 {
+        let xlen = u16::from_le_bytes([*src.get(p).ok_or("eof")?, *src.get(p + 1).ok_or("eof")?]) as usize;
+        p += 2 + xlen;
+    }
+    for bit in [8u8, 16] {
+        if flg & bit != 0 {
+            while *src.get(p).ok_or("eof in header string")? != 0 {
+                p += 1;
+            }
+            p += 1;
+        }
+    }
+    if flg & 2 != 0 {
+        p += 2;
+    }
+    if p + 8 > src.len() {
+        return Err("truncated".into());
+    }
+    let body = &src[p..src.len() - 8];
+    let out = miniz_oxide::inflate::decompress_to_vec(body).map_err(|e| format!("inflate: {e:?}"))?;
+    let crc = u32::from_le_bytes(src[src.len() - 8..src.len() - 4].try_into().unwrap());
+    let isize = u32::from_le_bytes(src[src.len() - 4..].try_into().unwrap());
+    if crc != crc32fast::hash(&out) {
+        return Err("CRC32 mismatch".into());
+    }
+    if isize != out.len() as u32 {
+        return Err("ISIZE mismatch".into());
+    }
+    Ok(out)
+}
+
+mod py {
+    //! bz2 / lzma of CPython in a persistent subprocess (thorough tier only).
+    use std::io::{BufRead, BufReader, Write};
+    use std::process::{Child, ChildStdin, ChildStdout, Command, Stdio};
+    use std::sync::Mutex;
+
+    const SCRIPT: &str = r#"
+import sys, bz2, lzma, struct, zlib
+inp = sys.stdin.buffer
+while True:
+    h = inp.read(9)
+    if len(h) < 9:
+        break
+    kind = h[0]
+    n = struct.unpack('<Q', h[1:])[0]
+    data = inp.read(n)
+    try:
+        out = bz2.decompress(data) if kind == 1 else lzma.decompress(data, format=lzma.FORMAT_XZ)
+        sys.stdout.write('ok %d %d\n' % (len(out), zlib.crc32(out) & 0xffffffff))
+    except Exception as e:
+        sys.stdout.write('err %s\n' % (str(e).replace('\n', ' '),))
+    sys.stdout.flush()
+"#;
+
+    struct Proc {
+        _child: Child,
+        stdin: ChildStdin,
+        stdout: BufReader<ChildStdout>,
+    }
+    static PROC: Mutex<Option<Option<Proc>>> = Mutex::new(None);
+
+    /// `Ok((len, crc32))`, `Err("unavailable…")` when python cannot be used, other `Err` = rejected.
+    pub fn decompress_summary(kind: u8, data: &[u8]) -> Result<(u64, u32), String> {
+        let mut g = PROC.lock().map_err(|_| "unavailable: poisoned".to_string())?;
+        if g.is_none() {
+            let spawned = Command::new("python3").arg("-c").arg(SCRIPT).stdin(Stdio::piped()).stdout(Stdio::piped()).stderr(Stdio::null()).spawn().ok().and_then(|mut c| {
+                let stdin = c.stdin.take()?;
+                let stdout = BufReader::new(c.stdout.take()?);
+                Some(Proc { _child: c, stdin, stdout })
+            });
+            *g = Some(spawned);
+        }
+        let Some(Some(p)) = g.as_mut() else { return Err("unavailable: python3 did not start".into()) };
+        let mut hdr = vec![kind];
+        hdr.extend_from_slice(&(data.len() as u64).to_le_bytes());
+        if p.stdin.write_all(&hdr).and_then(|_| p.stdin.write_all(data)).and_then(|_| p.stdin.flush()).is_err() {
+            *g = Some(None);
+            return Err("unavailable: write to python failed".into());
+        }
+        let mut line = String::new();
+        if p.stdout.read_line(&mut line).unwrap_or(0) == 0 {
+            *g = Some(None);
+            return Err("unavailable: python closed".into());
+        }
+        let line = line.trim();
+        if let Some(rest) = line.strip_prefix("ok ") {
+            let mut it = rest.split(' ');
+            let len = it.next().and_then(|s| s.parse().ok()).ok_or("unavailable: bad reply")?;
+            let crc = it.next().and_then(|s| s.parse().ok()).ok_or("unavailable: bad reply")?;
+            Ok((len, crc))
+        } else {
+            Err(line.to_string())
+        }
+    }
+}
+
+pub fn check_general(c: &GeneralCase) -> Verdict {
+    limit_memory();
+    let x = c.data.expand();
+    let codec = c.codec % 3;
+    let name = ["gzip", "bzip2", "lzma"][codec as usize];
+    let level = match codec {
+        0 => c.level.min(9),
+        1 => c.level.clamp(1, 9),
+        _ => c.level.min(9),
+    };
+    let enc = match guard(|| match codec {
+        0 => nv::gzip_encode(flate2::Compression::new(level as u32), &x),
+        1 => nv::bzip2_encode(bzip2::Compression::new(level as u32), &x),
+        _ => nv::lzma_encode(level as u32, &x),
+    }) {
+        Out::Ok(e) => e,
+        Out::Err(e) => return fail1(format!("c08.{name}.encode-error"), format!("{name} level {level}, {} bytes: {e}", x.len())),
+        Out::Panic(p) => return fail1(p.sig(), format!("{name} encode level {level}: {}", p.describe())),
+    };
+    let mut y = vec![0xa5u8; x.len()];
+    match guard(|| match codec {
+        0 => nv::gzip_decode(&enc, &mut y),
+        1 => nv::bzip2_decode(&enc, &mut y),
+        _ => nv::lzma_decode(&enc, &mut y),
+    }) {
+        Out::Ok(()) => {}
+        Out::Err(e) => return fail1(format!("c08.{name}.decode-error"), format!("{name} level {level}: decode of noodles' own stream ({} → {} bytes) failed: {e}", x.len(), enc.len())),
+        Out::Panic(p) => return fail1(p.sig(), format!("{name} decode: {}", p.describe())),
+    }
+    if y != x {
+        return fail1(format!("c08.{name}.roundtrip"), describe_mismatch(&format!("{name} level {level} decode(encode(x))"), &y, &x));
+    }
+    let mut independent = false;
+    if codec == 0 {
+        match gunzip_independent(&enc) {
+            Ok(z) => {
+                if z != x {
+                    return fail1("c08.gzip.independent-inflate", describe_mismatch("independent gunzip of noodles' stream", &z, &x));
+                }
+                independent = true;
+            }
+            Err(e) => return fail1("c08.gzip.independent-inflate", format!("independent gunzip rejects noodles' stream: {e}")),
+        }
+    } else if env().tier == Tier::Thorough {
+        match py::decompress_summary(codec, &enc) {
+            Ok((len, crc)) => {
+                if len != x.len() as u64 || crc != crc32fast::hash(&x) {
+                    return fail1(format!("c08.{name}.python"), format!("CPython decompresses noodles' {name} stream to {len} bytes crc {crc:08x}, expected {} bytes crc {:08x}", x.len(), crc32fast::hash(&x)));
+                }
+                independent = true;
+            }
+            Err(e) if e.starts_with("unavailable") => {}
+            Err(e) => return fail1(format!("c08.{name}.python"), format!("CPython rejects noodles' {name} stream: {e}")),
+        }
+    }
+    Ok(Pass::new(nontrivial_bytes(&x), key_of(c))
+        .label(name)
+        .label(len_label(x.len()))
+        .label(c.data.class_name())
+        .label_if(level == 0, "level0")
+        .label_if(level >= 7, "level>=7")
+        .label_if(independent, "second-implementation-checked"))
+}
+
+// ================================================================================================
+// ITF8 / LTF8 / uint7
+
+fn int_fail(sig: &str, msg: String) -> Vec<Fail> {
+    vec![Fail::new(sig, msg)]
+}
+
+/// One ITF8 value: bytes equal to the specification's, and read back (followed by a sentinel byte
+/// that must stay unread) as the same value.
+pub fn itf8_one(v: i32, buf: &mut Vec<u8>) -> Result<(), Vec<Fail>> {
+    buf.clear();
+    if let Err(e) = nv::write_itf8(buf, v) {
+        return Err(int_fail("c08.itf8.write-error", format!("write_itf8({v}) failed: {e}")));
+    }
+    let (want, n) = varint_ref::itf8_bytes(v);
+    if buf[..] != want[..n] {
+        return Err(int_fail("c08.itf8.bytes", format!("write_itf8({v}) = {:02x?}, the specification gives {:02x?}", buf, &want[..n])));
+    }
+    buf.push(0xa5);
+    let mut src = &buf[..];
+    match nv::read_itf8(&mut src) {
+        Ok(back) if back == v && src.len() == 1 => Ok(()),
+        Ok(back) => Err(int_fail("c08.itf8.roundtrip", format!("read_itf8(write_itf8({v})) = {back}, {} bytes left unread (1 expected)", src.len()))),
+        Err(e) => Err(int_fail("c08.itf8.read-error", format!("read_itf8 of {:02x?} failed: {e}", buf))),
+    }
+}
+
+pub fn uint7_one(v: u32, buf: &mut Vec<u8>) -> Result<(), Vec<Fail>> {
+    buf.clear();
+    if let Err(e) = nv::write_uint7(buf, v) {
+        return Err(int_fail("c08.uint7.write-error", format!("write_uint7({v}) failed: {e}")));
+    }
+    let (want, n) = varint_ref::uint7_bytes(v);
+    if buf[..] != want[..n] {
+        return Err(int_fail("c08.uint7.bytes", format!("write_uint7({v}) = {:02x?}, the specification gives {:02x?}", buf, &want[..n])));
+    }
+    buf.push(0xa5);
+    let mut src = &buf[..];
+    match nv::read_uint7(&mut src) {
+        Ok(back) if back == v && src.len() == 1 => Ok(()),
+        Ok(back) => Err(int_fail("c08.uint7.roundtrip", format!("read_uint7(write_uint7({v})) = {back}, {} bytes left unread (1 expected)", src.len()))),
+        Err(e) => Err(int_fail("c08.uint7.read-error", format!("read_uint7 of {:02x?} failed: {e}", buf))),
+    }
+}
+
+pub fn ltf8_one(v: i64, buf: &mut Vec<u8>) -> Result<(), Vec<Fail>> {
+    buf.clear();
+    if let Err(e) = nv::write_ltf8(buf, v) {
+        return Err(int_fail("c08.ltf8.write-error", format!("write_ltf8({v}) failed: {e}")));
+    }
+    let (want, n) = varint_ref::ltf8_bytes(v);
+    if buf[..] != want[..n] {
+        return Err(int_fail("c08.ltf8.bytes", format!("write_ltf8({v}) = {:02x?}, the specification gives {:02x?}", buf, &want[..n])));
+    }
+    buf.push(0xa5);
+    let mut src = &buf[..];
+    match nv::read_ltf8(&mut src) {
+        Ok(back) if back == v && src.len() == 1 => Ok(()),
+        Ok(back) => Err(int_fail("c08.ltf8.roundtrip", format!("read_ltf8(write_ltf8({v})) = {back}, {} bytes left unread (1 expected)", src.len()))),
+        Err(e) => Err(int_fail("c08.ltf8.read-error", format!("read_ltf8 of {:02x?} failed: {e}", buf))),
+    }
+}
+
+const U32_BOUNDARIES: [u32; 7] = [0, 0x80, 0x4000, 0x20_0000, 0x1000_0000, 0x8000_0000, 0xffff_ffff];
+
+/// Sweep `count` consecutive 32-bit patterns starting at `from` (wrapping) through `one`; records
+/// one pass for the whole range or the first failing value.
+fn sweep_u32(rec: &mut Recorder, kind: &'static str, label: &'static str, from: u32, count: u64, one: &dyn Fn(u32, &mut Vec<u8>) -> Result<(), Vec<Fail>>) -> bool {
+    let mut buf = Vec::with_capacity(16);
+    let mut v = from;
+    for _ in 0..count {
+        if let Err(f) = one(v, &mut buf) {
+            let val = v;
+            return rec.record(&|| serde_json::json!({"kind": kind, "value": val}), Err(f));
+        }
+        v = v.wrapping_add(1);
+    }
+    rec.record(&|| serde_json::json!({"kind": kind, "from": from, "count": count}), Ok(Pass::new(true, mix(fnv(kind.as_bytes()), ((from as u64) << 32) ^ count)).evals(count).label(label)))
+}
+
+fn run_u32_space(sc: &ShardCtx, rec: &mut Recorder, kind: &'static str, one: &dyn Fn(u32, &mut Vec<u8>) -> Result<(), Vec<Fail>>) {
+    let (s, n) = (sc.shard as u64, sc.nshards.max(1) as u64);
+    if sc.tier == Tier::Thorough {
+        // the whole space in 1024 chunks of 2^22 patterns
+        for chunk in (0..1024u64).filter(|c| c % n == s) {
+            if !sweep_u32(rec, kind, "exhaustive-chunk", (chunk << 22) as u32, 1 << 22, one) {
+                return;
+            }
+        }
+        return;
+    }
+    // quick: ±2^16 around every length-class boundary and the sign boundary …
+    for (i, b) in U32_BOUNDARIES.iter().enumerate() {
+        if i as u64 % n == s && !sweep_u32(rec, kind, "boundary-window", b.wrapping_sub(1 << 16), 1 << 17, one) {
+            return;
+        }
+    }
+    // … every ±2^k ± {0,1,2} …
+    if s == 0 {
+        let mut buf = Vec::new();
+        let mut cnt = 0u64;
+        for k in 0..32u32 {
+            for sign in [1i64, -1] {
+                for d in -2i64..=2 {
+                    let v = (sign * (1i64 << k) + d) as u32;
+                    cnt += 1;
+                    if let Err(f) = one(v, &mut buf) {
+                        rec.record(&|| serde_json::json!({"kind": kind, "value": v}), Err(f));
+                        return;
+                    }
+                }
+            }
+        }
+        if !rec.record(&|| serde_json::json!({"kind": kind, "set": "±2^k±{0,1,2}"}), Ok(Pass::new(true, mix(fnv(kind.as_bytes()), 0x2222)).evals(cnt).label("powers-of-two±2"))) {
+            return;
+        }
+    }
+    // … and a stratified sample: 8 patterns in each of the 2^20 blocks of 4096 (offsets from the seed)
+    let mut r = XorShift::new(sc.seed ^ 0x17f8);
+    for block0 in (0..(1u64 << 20)).step_by(1 << 12).filter(|b| (b >> 12) % n == s) {
+        let mut buf = Vec::new();
+        let mut cnt = 0u64;
+        for block in block0..block0 + (1 << 12) {
+            let x = r.next();
+            for j in 0..8 {
+                let v = ((block << 12) | ((x >> (12 * j % 52)) & 0xfff)) as u32;
+                cnt += 1;
+                if let Err(f) = one(v, &mut buf) {
+                    rec.record(&|| serde_json::json!({"kind": kind, "value": v}), Err(f));
+                    return;
+                }
+            }
+        }
+        if !rec.record(&|| serde_json::json!({"kind": kind, "stratified_blocks_from": block0, "seed": sc.seed}), Ok(Pass::new(true, mix(fnv(kind.as_bytes()), block0 ^ sc.seed)).evals(cnt).label("stratified-sample"))) {
+            return;
+        }
+    }
+}
+
+fn run_itf8(sc: &ShardCtx, rec: &mut Recorder) {
+    run_u32_space(sc, rec, "itf8", &|v, buf| itf8_one(v as i32, buf));
+}
+
+fn run_uint7(sc: &ShardCtx, rec: &mut Recorder) {
+    run_u32_space(sc, rec, "uint7", &|v, buf| uint7_one(v, buf));
+}
+
+fn run_ltf8(sc: &ShardCtx, rec: &mut Recorder) {
+    let (s, n) = (sc.shard as u64, sc.nshards.max(1) as u64);
+    let mut buf = Vec::new();
+    macro_rules! one {
+        ($v:expr) => {{
+            let v: i64 = $v;
+            if let Err(f) = ltf8_one(v, &mut buf) {
+                rec.record(&|| serde_json::json!({"kind": "ltf8", "value": v}), Err(f));
+                return;
+            }
+        }};
+    }
+    if s == 0 {
+        let mut cnt = 0u64;
+        for k in 0..64u32 {
+            for sign in [1i128, -1] {
+                for d in -2i128..=2 {
+                    one!((sign * (1i128 << k) + d) as i64);
+                    cnt += 1;
+                }
+            }
+        }
+        if !rec.record(&|| serde_json::json!({"kind": "ltf8", "set": "±2^k±{0,1,2}"}), Ok(Pass::new(true, 0x17f8_0001).evals(cnt).label("powers-of-two±2"))) {
+            return;
+        }
+    }
+    // ±2^12 around every length-class boundary 2^(7k) (k = 1..8), around 0 and around the sign flip
+    let mut boundaries: Vec<u64> = (1..=8u32).map(|k| 1u64 << (7 * k)).collect();
+    boundaries.push(0);
+    boundaries.push(1u64 << 63);
+    for (i, b) in boundaries.iter().enumerate() {
+        if i as u64 % n != s {
+            continue;
+        }
+        let mut cnt = 0u64;
+        for off in 0..(1u64 << 13) {
+            one!(b.wrapping_sub(1 << 12).wrapping_add(off) as i64);
+            cnt += 1;
+        }
+        let b = *b;
+        if !rec.record(&|| serde_json::json!({"kind": "ltf8", "window_around": b}), Ok(Pass::new(true, mix(0x17f8_0002, b)).evals(cnt).label("boundary-window"))) {
+            return;
+        }
+    }
+    // random: bit length uniform in 1..=64, both signs; quick 2·10^6, thorough 10^7 in total
+    let total = sc.tier.pick(2_000_000u64, 10_000_000);
+    let mine = total / n;
+    let mut r = XorShift::new(sc.seed ^ 0x17f8_0003);
+    let mut done = 0u64;
+    while done < mine {
+        let batch = (mine - done).min(1 << 18);
+        for _ in 0..batch {
+            let bits = 1 + (r.next() >> 20) % 64;
+            let x = r.next();
+            let m = if bits == 64 { x } else { x & ((1u64 << bits) - 1) };
+            let v = if r.next() & 0x100 != 0 { m as i64 } else { (m as i64).wrapping_neg() };
+            one!(v);
+        }
+        done += batch;
+        let (seed, d) = (sc.seed, done);
+        if !rec.record(&|| serde_json::json!({"kind": "ltf8", "random_upto": d, "seed": seed, "shard": s}), Ok(Pass::new(true, mix(mix(0x17f8_0004, seed), (s << 40) ^ d)).evals(batch).label("random"))) {
+            return;
+        }
+    }
+}
+
+fn replay_int(case: &serde_json::Value) -> Verdict {
+    let kind = case.get("kind").and_then(|k| k.as_str()).unwrap_or("");
+    let mut buf = Vec::new();
+    let pass = Ok(Pass::new(true, key_of(case)));
+    let Some(value) = case.get("value") else {
+        // a range / set record of a passing run: re-run ranges, accept the rest
+        if let (Some(from), Some(count)) = (case.get("from").and_then(|v| v.as_u64()), case.get("count").and_then(|v| v.as_u64())) {
+            let mut v = from as u32;
+            for _ in 0..count {
+                match kind {
+                    "itf8" => itf8_one(v as i32, &mut buf)?,
+                    "uint7" => uint7_one(v, &mut buf)?,
+                    _ => {}
+                }
+                v = v.wrapping_add(1);
+            }
+        }
+        return pass;
+    };
+    match kind {
+        "itf8" => itf8_one(value.as_i64().or(value.as_u64().map(|u| u as i64)).unwrap_or(0) as u32 as i32, &mut buf)?,
+        "uint7" => uint7_one(value.as_u64().unwrap_or(0) as u32, &mut buf)?,
+        "ltf8" => ltf8_one(value.as_i64().unwrap_or(0), &mut buf)?,
+        other => return fail1("c08.int.replay", format!("unknown integer kind {other:?}")),
+    }
+    pass
+}
+
+// ================================================================================================
+// Reference pins
+
+fn run_pins(_sc: &ShardCtx, rec: &mut Recorder) {
+    // a reference that does not reproduce the golden vectors must not judge anything: harness error
+    if let Err(e) = varint_ref::self_test() {
+        panic!("varint_ref self test failed: {e}");
+    }
+    if let Err(e) = rans_ref::self_test() {
+        panic!("rans_ref self test failed: {e}");
+    }
+    // noodles' decoders on the same transcribed vectors are covered by its own unit tests; here only
+    // the canaries are evaluated once so that the evidence shows which known defects are present
+    let canaries: [(&'static str, fn() -> bool); 12] = [
+        ("defect-present:rans4x8.normalise-excess", d_4x8_norm),
+        ("defect-present:nx16.normalise-excess", d_nx16_norm),
+        ("defect-present:nx16.order1-renormalisation-order", d_nx16_order1),
+        ("defect-present:rans4x8.symlist-first-symbol-1", d_4x8_first1),
+        ("defect-present:rans4x8.symlist-run-reaching-255", d_4x8_run255),
+        ("defect-present:rans4x8.empty-input", d_4x8_empty),
+        ("defect-present:nx16.symlist-first-symbol-1", d_nx16_first1),
+        ("defect-present:aac.empty-coder-input", d_aac_empty),
+        ("defect-present:aac.symbol-255", d_aac_255),
+        ("defect-present:tok3.name-with-127-or-more-tokens", d_tok3_tokens127),
+        ("defect-present:tok3.delta-onto-zero-padded-number", d_tok3_delta0),
+        ("defect-present:fqzcomp.zero-length-record", d_fqz_zero),
+    ];
+    let mut p = Pass::new(true, 0xC08).label("reference-pins-ok");
+    for (label, f) in canaries {
+        if f() {
+            p = p.label(label);
+        }
+    }
+    rec.record(&|| serde_json::json!({"pins": "varint_ref + rans_ref golden vectors"}), Ok(p));
+}
+
+fn replay_pins(_case: &serde_json::Value) -> Verdict {
+    varint_ref::self_test().map_err(|e| vec![Fail::new("c08.pins", e)])?;
+    rans_ref::self_test().map_err(|e| vec![Fail::new("c08.pins", e)])?;
+    Ok(Pass::new(true, 0xC08))
+}
+
+// ================================================================================================
+// Decoder entry point shared with C15
+
+/// Block compression method ids of the CRAM specification (1 gzip, 2 bzip2, 3 lzma, 4 rANS 4x8,
+/// 5 rANS Nx16, 6 adaptive arithmetic coder, 7 fqzcomp, 8 name tokenizer), plus 16 ITF8, 17 LTF8,
+/// 18 uint7. Calls the corresponding noodles decoder on arbitrary bytes; `size_hint` is the
+/// uncompressed size a container would announce (output buffer size for gzip/bzip2/lzma, external
+/// size for Nx16 / AAC streams with NO_SIZE). Panics are NOT caught here.
+pub fn decode_arbitrary(codec_id: u8, bytes: &[u8], size_hint: usize) -> Result<Vec<u8>, String> {
+    let size_hint = size_hint.min(1 << 24);
+    let r: io::Result<Vec<u8>> = match codec_id {
+        1 => {
+            let mut dst = vec![0u8; size_hint];
+            nv::gzip_decode(bytes, &mut dst).map(|_| dst)
+        }
+        2 => {
+            let mut dst = vec![0u8; size_hint];
+            nv::bzip2_decode(bytes, &mut dst).map(|_| dst)
+        }
+        3 => {
+            let mut dst = vec![0u8; size_hint];
+            nv::lzma_decode(bytes, &mut dst).map(|_| dst)
+        }
+        4 => nv::rans_4x8_decode(bytes),
+        5 => nv::rans_nx16_decode(bytes, size_hint),
+        6 => nv::aac_decode(bytes, size_hint),
+        7 => nv::fqzcomp_decode(bytes),
+        8 => nv::name_tokenizer_decode(bytes),
+        16 => nv::read_itf8(&mut &bytes[..]).map(|v| v.to_le_bytes().to_vec()),
+        17 => nv::read_ltf8(&mut &bytes[..]).map(|v| v.to_le_bytes().to_vec()),
+        18 => nv::read_uint7(&mut &bytes[..]).map(|v| v.to_le_bytes().to_vec()),
+        other => return Err(format!("unknown codec id {other}")),
+    };
+    r.map_err(|e| e.to_string())
+}
+
+/// The codec ids `decode_arbitrary` understands.
+pub const DECODE_ARBITRARY_IDS: [u8; 11] = [1, 2, 3, 4, 5, 6, 7, 8, 16, 17, 18];
+
+/// Uncompressed size a stream announces for itself at the top level, where the format has one
+/// (lets a caller skip "decompression bomb" inputs before handing them to `decode_arbitrary`).
+pub fn declared_size(codec_id: u8, bytes: &[u8]) -> Option<u64> {
+    match codec_id {
+        4 => bytes.get(5..9).map(|b| u32::from_le_bytes([b[0], b[1], b[2], b[3]]) as u64),
+        5 | 6 => {
+            let flags = *bytes.first()?;
+            if flags & 0x10 != 0 { None } else { varint_ref::uint7_decode(&bytes[1..]).ok().map(|(v, _)| v as u64) }
+        }
+        7 => varint_ref::uint7_decode(bytes).ok().map(|(v, _)| v as u64),
+        8 => bytes.get(0..8).map(|b| (u32::from_le_bytes([b[0], b[1], b[2], b[3]]) as u64).max(u32::from_le_bytes([b[4], b[5], b[6], b[7]]) as u64)),
+        _ => None,
+    }
+}
+
+// ================================================================================================
 
 pub fn property() -> Property {
-    Property { id: "C08", level: "exploration", rule: "", assumptions: vec![], subs: vec![], max_parallel: 16 }
+    let thorough = std::env::args().any(|a| a == "thorough");
+    Property {
+        id: "C08",
+        level: "exploration",
+        rule: "per codec: byte strings (11 content classes × lengths dense at 0–12, the 4-/32-way interleave remainders and uint7 size steps, literal short inputs) × order / every flag subset; fqzcomp: quality strings × record-length partitions; name tokenizer: NUL-terminated name lists from a token grammar with edits; gzip/bzip2/lzma × level; ITF8/uint7 over the 32-bit space, LTF8 boundary-dense",
+        assumptions: vec![
+            "the harness reference decoders (oracle/rans_ref.rs) and integer codecs (oracle/varint_ref.rs) are correct; they are pinned on the literal vectors of noodles' unit tests at the start of every run (sub-check ref_pins; a mismatch is a harness error)".into(),
+            "AAC, fqzcomp and the name tokenizer are judged by noodles' own decoder only (no independent decoder); the tokenizer's Nx16 sub-streams are additionally compared between noodles' Nx16 decoder and the reference".into(),
+            "miniz_oxide + crc32fast (gzip, both tiers) and CPython bz2/lzma (thorough) as second implementations".into(),
+            "decode-side canonicity of the integer codings is not asserted".into(),
+        ],
+        subs: vec![
+            EnumSub { name: "ref_pins", rule: "golden vectors transcribed from noodles' unit tests decode correctly under the reference implementations; records which known-defect canaries still fail", run: run_pins, replay: replay_pins, shards: (1, 1), opts: SubOpts::default() }.boxed(),
+            sub("rans4x8", "non-trivial = input ≥5 bytes with ≥2 distinct symbols; distinct by hash of the case; oracle = own round trip + independent decoder", r4x8_strategy, check_r4x8, 24_000, 400_000).with(|o| o.isolate = true).boxed(),
+            sub("rans_nx16", "non-trivial = input ≥5 bytes with ≥2 distinct symbols; all 128 subsets of the 7 flags; oracle = own round trip + independent decoder", nx16_strategy, check_nx16, 48_000, 800_000).with(|o| o.isolate = true).boxed(),
+            sub("aac", "non-trivial = input ≥5 bytes with ≥2 distinct symbols; all 128 subsets of the 7 flags; oracle = own round trip", aac_strategy, check_aac, 30_000, 500_000).with(|o| o.isolate = true).boxed(),
+            sub("fqzcomp", "non-trivial = ≥5 quality bytes with ≥2 distinct values; oracle = own round trip", fqz_strategy, check_fqz, 3_000, 50_000).with(|o| o.isolate = true).boxed(),
+            sub("name_tokenizer", "non-trivial = ≥2 names, ≥5 bytes; oracle = own round trip + reference/own agreement on every Nx16 sub-stream", names_strategy, check_names, 24_000, 300_000).with(|o| o.isolate = true).boxed(),
+            sub("general", "gzip/bzip2/lzma; non-trivial = input ≥5 bytes with ≥2 distinct symbols; oracle = own round trip + second implementation", general_strategy, check_general, 3_200, 30_000).boxed(),
+            EnumSub {
+                name: "itf8",
+                rule: "every evaluation is one 32-bit pattern written, compared byte-for-byte with the specification and read back; quick = ±2^16 windows at all length-class boundaries, ±2^k±{0,1,2}, 8 patterns in each block of 4096; thorough = all 2^32 patterns (distinct counts chunks, not values)",
+                run: run_itf8,
+                replay: replay_int,
+                shards: (8, 16),
+                opts: SubOpts { exhaustive: thorough, ..SubOpts::default() },
+            }
+            .boxed(),
+            EnumSub {
+                name: "uint7",
+                rule: "as itf8, over all u32 values (thorough = all 2^32)",
+                run: run_uint7,
+                replay: replay_int,
+                shards: (8, 16),
+                opts: SubOpts { exhaustive: thorough, ..SubOpts::default() },
+            }
+            .boxed(),
+            EnumSub { name: "ltf8", rule: "±2^k±{0,1,2} for k<64, ±2^12 windows at all length-class boundaries and the sign flip, random values with uniform bit length (2·10^6 quick, 10^7 thorough)", run: run_ltf8, replay: replay_int, shards: (8, 16), opts: SubOpts::default() }.boxed(),
+        ],
+        max_parallel: 16,
+    }
 }
